@@ -733,12 +733,15 @@ class Sim:
             mj.order.append('callback')
             if mj.cb['callback'] == 1:
                 mj.success_at = (CLOCK.now, self.in_join)
+                self._slots_seen_by_callback(mj)
             if mj.opts.get('cbscan') and mj.cb['callback'] == 1:
                 self.scan_during_callback(mj)
 
         def ecb(v):
             mj.cb['error'] += 1
             mj.order.append('error')
+            if mj.cb['error'] == 1 and not mj.cb['callback']:
+                self._slots_seen_by_callback(mj)
             if mj.opts.get('cbscan') and mj.cb['error'] == 1 and \
                     not mj.cb['callback']:
                 self.scan_during_callback(mj)
@@ -751,6 +754,14 @@ class Sim:
         def tcb(soft, timeout):
             mj.cb['timeout'].append((soft, timeout, len(self.signals)))
         return cb, ecb, acb, tcb
+
+    def _slots_seen_by_callback(self, mj):
+        """free slots as the job's own result callback sees them (a callback
+        that submits the follow-up job needs the slot its job has just given
+        back); only for callbacks the result handler runs on the job's READY"""
+        sem = self.pool._putlock
+        if sem is not None and self.in_deliver and self.config.get('putlocks'):
+            mj.cb_slots = (sem._value, sem._initial_value)
 
     def scan_during_callback(self, mj):
         """The result callback of ``mj`` is running in the result handler (this
